@@ -22,6 +22,7 @@ import (
 	"runtime/debug"
 	"slices"
 	"sort"
+	"sync"
 	"testing"
 
 	"github.com/prometheus/client_golang/prometheus"
@@ -197,6 +198,48 @@ func gen(minN, maxN, maxRF int, caches []int) iter.Seq[Case] {
 	}
 }
 
+// smallSizes: the shard sizes of the second family. Without zone awareness every size 1..n; with it one size per
+// distinct per-zone take ceil(size/zones) (the largest; rounding is the first family's subject).
+func smallSizes(zones []int, zad bool) []int {
+	n, z := 0, len(zones)
+	for _, s := range zones {
+		n += s
+	}
+	var out []int
+	for ss := 1; ss <= n; ss++ {
+		if zad || ss == n || (ss+z)/z != (ss+z-1)/z {
+			out = append(out, ss)
+		}
+	}
+	return out
+}
+
+// genSmall: second family, one tenant per case.
+func genSmall(minN, maxN, maxRF int, spns []int, nTenants int) iter.Seq[Case] {
+	return func(yield func(Case) bool) {
+		for n := minN; n <= maxN; n++ {
+			for _, z := range partsAtMost(n, 3) {
+				for _, zad := range []bool{false, true} {
+					if len(z) == 1 && zad {
+						continue
+					}
+					for _, ss := range smallSizes(z, zad) {
+						for _, spn := range spns {
+							for rf := 1; rf <= maxRF; rf++ {
+								for t := 0; t < nTenants; t++ {
+									if !yield(Case{Zones: z, ShardSize: ss, ZAD: zad, RF: rf, SPN: spn, Tenants: []string{fmt.Sprintf("t%d", t)}}) {
+										return
+									}
+								}
+							}
+						}
+					}
+				}
+			}
+		}
+	}
+}
+
 func series(i int) *prompb.TimeSeries {
 	return &prompb.TimeSeries{Labels: []labelpb.ZLabel{{Name: "__name__", Value: "m"}, {Name: "i", Value: fmt.Sprint(i)}}}
 }
@@ -215,7 +258,90 @@ func (o obs) String() string {
 	return fmt.Sprintf("%s: nodes %b", o.how, o.set)
 }
 
-type checker struct{ r *vlib.R }
+type checker struct {
+	r *vlib.R
+
+	mu       sync.Mutex
+	gapSeen  map[string]struct{} // (ring, zone, draw index, gap) a draw of some tenant landed in
+	gapTotal map[string]int      // ring -> number of (zone, draw index, gap) combinations it has
+}
+
+// drawStats replays, on the sections of the base ring (read through the adapter), where the draws of the tenant
+// land: the documented procedure (per zone a generator seeded with ShuffleShardSeed(tenant, zone), one 64-bit draw
+// per node to take, walk clockwise to the first section of a node not yet taken). It only classifies the case
+// (non-trivial or not, which gaps were hit); the verdict never depends on it.
+type drawStats struct {
+	draws        int
+	beforeFirst  int // at or before the zone's first section
+	afterLast    int // after the zone's last section
+	pastUnpicked int // not after the zone's last section, but every section from there to the end belongs to nodes already taken
+}
+
+func (k *checker) drawStats(c Case, secs []receive.VerifC21Section, tenant string, take int) drawStats {
+	var st drawStats
+	byAZ := map[string][]receive.VerifC21Section{}
+	for _, s := range secs {
+		az := s.Node.AZ
+		if c.ZAD {
+			az = ""
+		}
+		byAZ[az] = append(byAZ[az], s)
+	}
+	ring := fmt.Sprint(c.Zones, c.ZAD, c.SPN, take)
+	total := 0
+	var hit []string
+	for az, zs := range byAZ {
+		sort.Slice(zs, func(i, j int) bool { return zs[i].Hash < zs[j].Hash })
+		nodes := map[receive.Endpoint]struct{}{}
+		for _, s := range zs {
+			nodes[s.Node] = struct{}{}
+		}
+		if take > len(nodes) {
+			return drawStats{} // no shard for this size
+		}
+		total += take * (len(zs) + 1)
+		rnd := rand.New(rand.NewSource(receive.ShuffleShardSeed(tenant, az)))
+		taken := map[receive.Endpoint]struct{}{}
+		for i := 0; i < take; i++ {
+			p := rnd.Uint64()
+			g := sort.Search(len(zs), func(x int) bool { return zs[x].Hash >= p })
+			st.draws++
+			hit = append(hit, fmt.Sprint(ring, az, i, g))
+			switch {
+			case g == 0:
+				st.beforeFirst++
+			case g == len(zs):
+				st.afterLast++
+			}
+			if g < len(zs) && len(taken) > 0 {
+				free := false
+				for _, s := range zs[g:] {
+					if _, ok := taken[s.Node]; !ok {
+						free = true
+						break
+					}
+				}
+				if !free {
+					st.pastUnpicked++
+				}
+			}
+			for j := 0; j < len(zs); j++ {
+				s := zs[(g+j)%len(zs)]
+				if _, ok := taken[s.Node]; !ok {
+					taken[s.Node] = struct{}{}
+					break
+				}
+			}
+		}
+	}
+	k.mu.Lock()
+	k.gapTotal[ring] = total
+	for _, h := range hit {
+		k.gapSeen[h] = struct{}{}
+	}
+	k.mu.Unlock()
+	return st
+}
 
 func (k *checker) eval(c Case) {
 	r := k.r
@@ -223,6 +349,7 @@ func (k *checker) eval(c Case) {
 		return
 	}
 	r.Sample(c)
+	small := c.SPN > 0
 	eps := c.endpoints()
 	ix := map[receive.Endpoint]int{}
 	for i, e := range eps {
@@ -246,7 +373,13 @@ func (k *checker) eval(c Case) {
 		return m, true
 	}
 	mk := func() receive.Hashring {
-		h, err := receive.NewMultiHashring(receive.AlgorithmKetama, uint64(c.RF), c.config(), prometheus.NewRegistry())
+		var h receive.Hashring
+		var err error
+		if small {
+			h, err = receive.VerifC21SmallRing(c.endpoints(), c.SPN, uint64(c.RF), c.config()[0].ShuffleShardingConfig)
+		} else {
+			h, err = receive.NewMultiHashring(receive.AlgorithmKetama, uint64(c.RF), c.config(), prometheus.NewRegistry())
+		}
 		if err != nil {
 			return nil
 		}
@@ -271,14 +404,32 @@ func (k *checker) eval(c Case) {
 		}
 		return obs{how: how, set: s}
 	}
+	var secs []receive.VerifC21Section
+	if small {
+		var err error
+		if secs, err = receive.VerifC21BaseSections(A); err != nil || len(secs) != c.n()*c.SPN {
+			panic(fmt.Sprintf("HARNESS-ERROR base ring sections: %v (%d)", err, len(secs)))
+		}
+	}
+	tns := c.Tenants
+	if len(tns) == 0 {
+		tns = tenants
+	}
+	nSeries := 24
+	if small {
+		nSeries = 8
+	}
 
-	for _, tn := range tenants {
+	for _, tn := range tns {
 		var seen []obs
-		seen = append(seen, shard(A, "computed", tn, false), shard(A, "computed again", tn, false))
+		seen = append(seen, shard(A, "computed", tn, false))
+		if !small {
+			seen = append(seen, shard(A, "computed again", tn, false))
+		}
 		// GetN: fills the cache; every replica must be inside the set the cache then holds.
 		var placed uint64
 		getnErr := ""
-		for i := 0; i < 24 && getnErr == ""; i++ {
+		for i := 0; i < nSeries && getnErr == ""; i++ {
 			for j := 0; j < c.RF; j++ {
 				e, err := A.GetN(tn, series(i), uint64(j))
 				if err != nil {
@@ -294,14 +445,12 @@ func (k *checker) eval(c Case) {
 			}
 		}
 		seen = append(seen, shard(A, "cached after GetN", tn, true))
-		// another tenant in between: with cache size 1 it evicts the entry
-		_, _ = A.GetN("evict-"+tn, series(0), 0)
-		_, _ = A.GetN("evict2-"+tn, series(0), 0)
-		seen = append(seen, shard(A, "cached after other tenants were served", tn, true))
-		seen = append(seen, shard(B, "computed on a second instance of the same configuration", tn, false))
-		for i := 0; i < 3; i++ {
-			seen = append(seen, shard(B, "computed once more", tn, false))
+		if !small {
+			// another tenant in between: with cache size 1 it evicts the entry
+			_, _ = A.GetN("evict-"+tn, series(0), 0)
+			seen = append(seen, shard(A, "cached after another tenant was served", tn, true))
 		}
+		seen = append(seen, shard(B, "computed on a second instance of the same configuration", tn, false))
 
 		first := seen[0]
 		for _, o := range seen[1:] {
@@ -328,7 +477,7 @@ func (k *checker) eval(c Case) {
 				return
 			}
 			if !anyUnsat {
-				r.Violation("satisfiable-shard-size-rejected", fmt.Sprintf("tenant %q (configured shard size %v, zones %v, RF %d, zone awareness disabled=%v): %s", tn, sizes, c.Zones, c.RF, c.ZAD, first.err), c)
+				r.Violation("satisfiable-shard-size-rejected", fmt.Sprintf("tenant %q (configured shard size %v, zones %v, RF %d, zone awareness disabled=%v, %s): %s", tn, sizes, c.Zones, c.RF, c.ZAD, c.base(), first.err), c)
 				return
 			}
 			if getnErr == "" {
@@ -364,8 +513,8 @@ func (k *checker) eval(c Case) {
 			if viaDefault {
 				sig = "override-without-matcher-type-not-applied"
 			}
-			r.Violation(sig, fmt.Sprintf("tenant %q: configured shard size %v (default %d), zones %v, zone awareness disabled=%v, but the sub-ring has per-zone node counts %v (total %d)",
-				tn, sizes, c.ShardSize, c.Zones, c.ZAD, cnt[:len(c.Zones)], total), c)
+			r.Violation(sig, fmt.Sprintf("tenant %q: configured shard size %v (default %d), zones %v, zone awareness disabled=%v, %s, but the sub-ring has per-zone node counts %v (total %d)",
+				tn, sizes, c.ShardSize, c.Zones, c.ZAD, c.base(), cnt[:len(c.Zones)], total), c)
 			return
 		}
 		// ---- replicas inside the set
@@ -378,30 +527,84 @@ func (k *checker) eval(c Case) {
 			return
 		}
 		r.Outcome(fmt.Sprintf("shard of %d nodes", total))
-		if total < c.n() {
+		if !small {
+			if total < c.n() {
+				r.Nontrivial(fmt.Sprint(c, tn))
+				r.Add("nontrivial_production_ring", 1)
+			}
+			continue
+		}
+		take, _ := c.perZone(c.ShardSize)
+		st := k.drawStats(c, secs, tn, take)
+		r.Add("small_ring_draws", int64(st.draws))
+		r.Add("small_ring_draws_before_first_section_of_zone", int64(st.beforeFirst))
+		r.Add("small_ring_draws_after_last_section_of_zone", int64(st.afterLast))
+		r.Add("small_ring_draws_after_last_section_of_every_unselected_node_but_not_of_zone", int64(st.pastUnpicked))
+		if st.afterLast+st.pastUnpicked > 0 {
 			r.Nontrivial(fmt.Sprint(c, tn))
+			r.Add("nontrivial_small_ring", 1)
+		}
+		if st.pastUnpicked > 0 {
+			r.Add("nontrivial_small_ring_walk_wraps_over_selected_tail", 1)
 		}
 	}
-	if c.CacheSize == 1 {
+	if !small && c.CacheSize == 1 {
 		if l := receive.VerifC21CacheLen(A); l > 1 {
 			r.Note("cache size 1 but %d entries cached", l)
 		}
 	}
 }
 
+func (c Case) base() string {
+	if c.SPN > 0 {
+		return fmt.Sprintf("base ring with %d section(s) per node", c.SPN)
+	}
+	return "production base ring"
+}
+
 func TestCheck(t *testing.T) {
+	// every sub-ring is 1000 short-lived sections per node: collect less often
+	defer debug.SetGCPercent(debug.SetGCPercent(400))
 	r := vlib.New(t, "C21")
 	defer r.Finish()
 	minN := 3
 	maxN := vlib.Pick(r, 5, 7)
 	maxRF := vlib.Pick(r, 2, 3)
 	caches := vlib.Pick(r, []int{1}, []int{1, 0})
-	r.Rule(fmt.Sprintf("layouts: every multiset of <= 3 zone sizes with %d..%d nodes x default shard size 1..n x 16 override lists (none; exact / glob / matcher type left out / glob with bad pattern + exact / overlapping exact + glob, "+
-		"override sizes from {1, n, n+1}) x zone awareness on/off x RF 1..%d x cache sizes %v; per configuration the tenants %q, each observed 8 times (computed twice, cached after GetN, after serving other tenants, on a second instance) and 24 series through GetN. "+
-		"Non-trivial = (configuration, tenant) pairs whose shard is a proper subset of the nodes", minN, maxN, maxRF, caches, tenants))
+	sMaxN := vlib.Pick(r, 6, 7)
+	sMaxRF := vlib.Pick(r, 1, 2)
+	spns := []int{1, 2, 3}
+	nTen := vlib.Pick(r, 60, 200)
+	r.Rule(fmt.Sprintf("(1) production ring: every multiset of <= 3 zone sizes with %d..%d nodes x default shard size 1..n x 16 override lists (none; exact / glob / matcher type left out / glob with bad pattern + exact / overlapping exact + glob, "+
+		"override sizes from {1, n, n+1}) x zone awareness on/off x RF 1..%d x cache sizes %v; per configuration the tenants %q, each observed 5 times (computed twice, cached after GetN, after serving another tenant, on a second instance) and 24 series through GetN. "+
+		"Non-trivial = (configuration, tenant) pairs whose shard is a proper subset of the nodes. "+
+		"(2) positions of the draws: the same ring over a base ketama ring with %v sections per node: every multiset of <= 3 zone sizes with %d..%d nodes x shard size 1..n (zone-aware: one size per distinct per-zone take, up to take = zone size) x zone awareness on/off x RF 1..%d x tenants t0..t%d, "+
+		"each observed 3 times (computed, cached after GetN, second instance) and 8 series through GetN. Non-trivial = (configuration, tenant) pairs in which a draw landed after the last section of every not yet selected node of its zone "+
+		"(positions replayed in the harness from the base ring's sections; extras give the split and the covered (zone, draw index, gap) combinations)",
+		minN, maxN, maxRF, caches, tenants, spns, minN, sMaxN, sMaxRF, nTen-1))
 	r.Assume("configured number per zone = ceil(shard_size / zones) (docs: shard_size/number_of_azs chosen from each availability zone); an override applies to a tenant when it lists it (matcher exact or left out, documented default) or a glob pattern matches it; if several overrides match, any of their sizes is accepted",
 		"a tenant whose configured size cannot be provided (more than a zone has, fewer nodes than RF) must consistently get an error",
-		"RF <= 3: larger RF can make the sub-ring construction spin forever on unbalanced sub-rings (C19), which would block this check")
-	k := &checker{r: r}
-	vlib.ForEach(r, gen(minN, maxN, maxRF, caches), k.eval)
+		"RF <= 3: larger RF multiplies the cost of every sub-ring",
+		"family (2) builds the shuffle-sharded ring with newKetamaHashring(endpoints, 1..3, rf) + newShuffleShardHashring as newHashring does with 1000 sections per node; the tenant's sub-ring is still built by the real getTenantShard")
+	k := &checker{r: r, gapSeen: map[string]struct{}{}, gapTotal: map[string]int{}}
+	all := func(yield func(Case) bool) {
+		for c := range genSmall(minN, sMaxN, sMaxRF, spns, nTen) {
+			if !yield(c) {
+				return
+			}
+		}
+		for c := range gen(minN, maxN, maxRF, caches) {
+			if !yield(c) {
+				return
+			}
+		}
+	}
+	vlib.ForEach(r, all, k.eval)
+	tot := 0
+	for _, n := range k.gapTotal {
+		tot += n
+	}
+	if tot > 0 {
+		r.Set("small_ring_draw_positions_covered", fmt.Sprintf("%d of %d (base ring, zone, draw index, gap before/between/after the zone's sections)", len(k.gapSeen), tot))
+	}
 }
